@@ -1026,6 +1026,14 @@ func (x *Exec) applyContractSig(st *State, call *ast.CallExpr, sig *types.Signat
 					cenv.names["raw_"+k] = rv // raw_<param>: the argument before its conversion to the (interface) parameter type
 				}
 			}
+			// a clause that names a local which is not in scope at THIS call site says nothing about it (it is about the
+			// call sites where that local exists); a clause that is in scope at no call site at all makes the function
+			// undecided (see verifyFunc)
+			if _, ok := x.tryBoolean(cenv, ca.Expr); !ok {
+				x.vc.note("at_call " + c.Local + ": clause not in scope at " + x.posn(call.Pos()).String() + ": " + trunc(ca.Src, 60))
+				continue
+			}
+			x.counts[fmt.Sprintf("atcall-eval:%s#%d", caKey, i)]++
 			for j, cj := range x.prog.expandConj(ca.Expr, 0) {
 				cls := fmt.Sprintf("callsite@%s.%d", c.Local, i+1)
 				if j > 0 {
